@@ -1,31 +1,49 @@
 """C28 — reentrant locking takes and releases the physical lock exactly once
 (breezy/counted_lock.py: CountedLock; breezy/bzr/lockable_files.py:
 LockableFiles.lock_write/lock_read/unlock; breezy/bzr/pack_repo.py:
-PackRepository.lock_write/lock_read/unlock; breezy/bzr/branch.py:
-BzrBranch.lock_write/lock_read/unlock; working tree by oracle only).
+PackRepository.lock_write/lock_read/unlock (+ start/abort_write_group);
+breezy/bzr/branch.py: BzrBranch.lock_write/lock_read/unlock;
+breezy/bzr/workingtree_4.py / workingtree.py / workingtree_3.py: the bzr working
+trees' lock_read/lock_tree_write/lock_write/unlock).
 
 Model: lean/BreezyVerif/Model/C28.lean — every wrapper method a total function
-state -> state x result over an abstract recording physical lock.
+state -> state x result over an abstract recording physical lock `Phys`, which
+refuses lock_read() (LockContention) exactly when its environment flag is set.
+Layers: CL, LF, Repo, Branch (unguarded `step` / guarded `stepG`), Tree over the
+guarded branch (`Tree.step` = /repo, `Tree.stepG` = with the reverted guard),
+RepoW (write groups, unlock inside a write group as found / fixed), BranchS
+(unlock with a config store whose save_changes() raises, as found / fixed).
 
 T2 (every run): the REAL classes are driven with a recording fake physical
-lock (FakePhys: never refuses lock_read/unlock so that a miscounting wrapper
-shows in the log; LockDir's token behaviour) and compared with the model after
-EVERY step on the complete state (mode, count, token, transaction kind,
-physical held/disk/log, write-lock count, fallback depth and log):
-  cl     CountedLock(FakePhys)                      all sequences over
-  lf     LockableFiles(MemoryTransport, FakePhys)   {r, w, w(tok), w(bad tok), u}
-  repo   a real 2a PackRepository whose control_files._lock is a FakePhys and
-         whose fallback repositories are recording fakes
-  branch a real BzrBranch + that repository, operations on the branch and
-         directly on its repository interleaved
+lock (FakePhys: never refuses unlock, refuses lock_read only when told to, so
+that a miscounting wrapper shows in the log; LockDir's token behaviour) and
+compared with the model after EVERY step on the complete state (mode, count,
+token, transaction kind, physical held/disk/log, write-lock count, fallback
+depth and log, write group):
+  cl      CountedLock(FakePhys)                      all sequences over
+  lf      LockableFiles(MemoryTransport, FakePhys)   {r, w, w(tok), w(bad tok), u}
+  repo    a real 2a PackRepository whose control_files._lock is a FakePhys and
+          whose fallback repositories are recording fakes
+  branch  a real BzrBranch + that repository, operations on the branch and
+          directly on its repository interleaved
+  repow   the repository with start_write_group / abort_write_group (real write groups)
+  branchs the branch stack with a config store whose save_changes() raises
+  ftree   a real bzr working tree (DirState format) + branch + repository, all
+          three control-files locks fakes: tree lock_read / lock_tree_write /
+          lock_write / unlock interleaved with branch and repository calls
   exhaustively up to a length bound, both with and without a pre-existing
-  on-disk lock, plus random sequences of length <= 40.
+  on-disk lock; for EVERY subset of layers whose physical lock refuses
+  lock_read() exhaustively one step shorter; plus random sequences of length <= 40.
 Oracle (independent of the model; balances recomputed from the observed
-results): is_locked() <=> more successful locks than unlocks; the physical
-lock / the fallbacks are acquired exactly on the 0->1 edge and released exactly
-on the 1->0 edge (no event otherwise, never two acquires in a row); a refused
-call leaves the lock state of every layer unchanged; lock_write while
-read-locked -> ReadOnlyError; unlock at balance 0 -> LockNotHeld.
+results, per layer: the tree holds one branch lock per tree lock, a locked
+branch holds its repository once): is_locked() <=> more successful locks than
+unlocks; the physical lock / the fallbacks are acquired exactly on the 0->1 edge
+and released exactly on the 1->0 edge (no event otherwise, never two acquires in
+a row); a refused call leaves the lock state of every layer unchanged (incl. the
+roll-backs of half-taken locks); a write request while a needed layer is
+read-locked -> ReadOnlyError; a read request needing a refusing physical lock ->
+LockContention, every other read request granted; unlock at balance 0 ->
+LockNotHeld; write-group calls succeed exactly under a write lock.
 A second, fake-free run drives a real working tree / branch / repository stack
 with real LockDirs and applies the same oracle to is_locked(), the lock counts
 and get_physical_lock_status().
@@ -38,15 +56,26 @@ wt.unlock() of a never-locked tree reaching branch.unlock()), so
 (DirState)WorkingTree.unlock of a tree that holds no lock still raises
 LockNotHeld after its `finally:` clause released a branch lock held by somebody
 else: committed known finding, family `tree-over-unlock-releases-branch`
-(oracle only; the tree has no Lean model).  branch_variant() and tree_variant()
-probe the two layers independently; the branch variant selects the model that
-is tied (`Branch.step` = unguarded, with `branch_over_unlock_witness`;
-`Branch.stepG` = guarded).  If the branch guard is lost again the unguarded
-model is tied, the correspondence stays clean and the oracle reports the
-over-unlock as a plain VIOLATION (no family) with the 2-step input [pr, bu].
+(`tree_over_unlock_witness`).  branch_variant(), ftree_variant(),
+tree_variant() and the model_kind() probes of repow / branchs select the model
+variant that is tied, so a `fix:` commit does not break the correspondence.  If
+the branch guard is lost again the unguarded model is tied, the correspondence
+stays clean and the oracle reports the over-unlock as a plain VIOLATION (no
+family) with the 2-step input [pr, bu].
 
-Mutants this was built against (scratch worktree with the guards applied,
-so that the baseline is clean; all caught, "oracle" = concrete failing input):
+NEW, not yet triaged (the check exits 1 on /repo until the coordinator decides;
+repro scripts and tested patches in /var/tmp/imp-C28C29/c28):
+  repo-unlock-in-write-group-keeps-fallbacks-locked   [w, g, u] on repow:
+      PackRepository.unlock of the last write lock inside a write group raises
+      BzrError (discarded by only_raises) before the fallbacks are unlocked
+      (`repo_unlock_in_write_group_witness`)
+  branch-unlock-config-save-failure-keeps-lock        [bw, bu] on branchs:
+      BzrBranch.unlock calls conf_store.save_changes() before its try/finally;
+      a failure is discarded by only_raises and nothing is released
+      (`branch_unlock_save_failure_witness`)
+
+Mutants this was built against (scratch worktree with the guards / patches
+applied, so that the baseline is clean; all caught, "oracle" = concrete failing input):
   M1  CountedLock.unlock `elif self._lock_count == 1` -> `<= 2`            oracle
   M2  CountedLock.lock_write: ReadOnlyError branch disabled                 oracle
   M3  LockableFiles.unlock `if self._lock_count > 1` -> `> 2`              oracle
@@ -63,8 +92,18 @@ so that the baseline is clean; all caught, "oracle" = concrete failing input):
   M13 BzrBranch.lock_read re-locks the repository on nested calls           oracle (workflow)
   M14 DirStateWorkingTree.unlock releases the branch only at the last unlock oracle (workflow)
   M15 BzrBranch.unlock guard reverted (on the current /repo)                  oracle, no family
+  M16 BzrBranch.lock_read: repository not unlocked when control_files.lock_read()
+      raises (needs a refusing physical read lock on the branch)            oracle
+  M17 DirStateWorkingTree.lock_read: branch not unlocked when the tree's own
+      lock_read raises (needs a refusing physical read lock on the tree)    oracle
+  M18 DirStateWorkingTree._lock_self_write: branch not unlocked when the tree's
+      own lock_write is refused (read-locked tree, then tt / tw)            oracle
+  M19 LockableFiles.lock_read sets _lock_mode before the physical lock_read  oracle
+  M20 CountedLock.lock_read sets _lock_count before the physical lock_read   oracle
+  M22 DirStateWorkingTree.lock_tree_write takes branch.lock_write()          oracle
 Harmless (stay clean): reordered assignments in CountedLock.lock_read,
-`== 0` -> `not`, `> 1` -> `>= 2`, `bool()` in is_locked, restructured took_lock.
+`== 0` -> `not`, `> 1` -> `>= 2`, `bool()` in is_locked, restructured took_lock,
+DirStateWorkingTree.unlock with a local result variable.
 """
 import glob
 import itertools
@@ -87,22 +126,26 @@ THEOREMS = [
     "lf_ok_edge", "tree_physical_balanced", "tree_over_unlock_witness", "tree_ok_edge",
     "tree_refused_unchanged_partial", "tree_write_after_read_refused",
     "treeG_over_unlock_refused", "treeG_refused_unchanged", "treeG_physical_balanced",
+    "tree_consistent_step", "tree_consistent_run", "tree_refused_unchanged_run",
     "repow_no_group", "repo_unlock_in_write_group_witness", "repowF_unlock_in_write_group",
     "repowF_inv_step", "repowF_physical_balanced",
     "branchS_no_failure", "branchS_fixed_eq", "branch_unlock_save_failure_witness",
 ]
 RULE = ("all operation sequences over {lock_read, lock_write(None), lock_write(known token), "
-        "lock_write(wrong token), unlock} up to a length bound (exhaustive) and random ones up to length 40, "
-        "for CountedLock, LockableFiles, PackRepository and the BzrBranch/PackRepository stack, with and "
-        "without a pre-existing on-disk lock; non-trivial = some call was refused or some lock was nested")
+        "lock_write(wrong token), unlock} (repow: + start/abort_write_group; ftree: tree lock_read / "
+        "lock_tree_write / lock_write / unlock interleaved with branch and repository calls) up to a length "
+        "bound (exhaustive) and random ones up to length 40, for CountedLock, LockableFiles, PackRepository, "
+        "the BzrBranch/PackRepository stack and the working-tree/branch/repository stack, with and without a "
+        "pre-existing on-disk lock and for every subset of layers whose physical lock refuses lock_read(); "
+        "non-trivial = some call was refused or some lock was nested")
 ASSUMPTIONS = [
-    "the physical lock is the recording fake (LockDir token semantics); real LockDirs are used in the "
-    "working-tree stack run",
-    "no write group is active while unlocking (PackRepository.unlock's write-group branch is not modelled)",
+    "the physical lock is the recording fake (LockDir token semantics; refuses lock_read only on request); "
+    "real LockDirs are used in the fake-free working-tree stack run",
     "single thread; debug flag 'unlock' not set (cant_unlock_not_held raises)",
+    "the dirstate file lock and the cache flushing of the last tree unlock do not fail",
 ]
 TRUSTED = [
-    "FakePhys / FakeFallback (harness) and their Lean counterpart Phys: recorded, never refusing lock_read/unlock",
+    "FakePhys / FakeFallback (harness) and their Lean counterpart Phys: recorded, never refusing unlock",
 ]
 
 NONCE = 7
@@ -292,6 +335,14 @@ def dump_repo(r):
                             "".join(fbs[0].log) or ".")
 
 
+def dump_ds(wt):
+    """mode the dirstate file is locked in by this tree object"""
+    ds = getattr(wt, "_dirstate", None)
+    if ds is None or getattr(ds, "_lock_token", None) is None:
+        return "-"
+    return ds._lock_state or "?"
+
+
 def dump_branch(b):
     return dump_lf(b.control_files) + "|" + dump_repo(b.repository)
 
@@ -350,6 +401,9 @@ class Subject:
 
     def model_kind(self):
         return self.kind
+
+    def ds_blocked(self, tgt, o, bal, rb):
+        return False
 
 
 class SubjCL(Subject):
@@ -417,6 +471,16 @@ class _Stack:
     def arm(self, ext, rb=""):
         b = getattr(self, "branch", None)
         wt = getattr(self, "tree", None)
+        pin = getattr(self, "pin", None)
+        if pin is not None:          # the second tree object that pinned the dirstate file
+            try:
+                while pin.is_locked():
+                    pin.unlock()
+            except Exception:  # noqa
+                ds = getattr(pin, "_dirstate", None)
+                if ds is not None and getattr(ds, "_lock_token", None) is not None:
+                    ds.unlock()
+            self.pin = None
         ok = b is not None
         if ok:
             b.conf_store = None
@@ -461,6 +525,13 @@ class _Stack:
         if wt is not None:
             wt._control_files._lock = FakePhys(ext, "t" in rb)
             wt._control_files._token_from_lock = None
+            if "d" in rb:
+                # another working-tree object holds a READ lock: it pins the dirstate file, whose
+                # lock_write() is then refused (its own branch / repository objects are separate
+                # ones with real LockDirs, whose read locks are not physical)
+                from breezy.workingtree import WorkingTree
+                self.pin = WorkingTree.open(_Stack._wt.basedir)
+                self.pin.lock_read()
         r._fallback_repositories = [FakeFallback(), FakeFallback()]
 
 
@@ -630,7 +701,7 @@ class SubjTree(Subject, _Stack):
     kind = "ftree"
     with_tree = True
     targets = ["t", "b", "p"]
-    rbflags = ["t", "c", "p"]
+    rbflags = ["t", "c", "p", "d"]      # d: the dirstate FILE is pinned by another reader
     tops = {"t": ["r", "t", "w", "u"]}
 
     def fresh(self, ext, rb=""):
@@ -643,13 +714,17 @@ class SubjTree(Subject, _Stack):
         return _call(tgt, op[1:])
 
     def dump(self):
-        return dump_lf(self.obj._control_files) + "|" + dump_branch(self.obj.branch)
+        return dump_lf(self.obj._control_files) + "|" + dump_branch(self.obj.branch) + "|" + dump_ds(self.obj)
 
     def core(self):
         wt = self.obj
         b = wt.branch
         return (core_lf(wt._control_files), bool(wt.is_locked()), core_lf(b.control_files), bool(b.is_locked()),
-                core_repo(b.repository))
+                core_repo(b.repository), dump_ds(wt))
+
+    def ds_blocked(self, tgt, o, bal, rb):
+        """a first write lock of the tree needs the dirstate file's write lock"""
+        return "d" in rb and tgt == "t" and o in ("w", "t") and bal["t"] == 0
 
     # --- specification: every tree lock holds one branch lock
     def keys(self):
@@ -861,6 +936,9 @@ def run_sequence(ctx, subj, ext, ops, record=True, rb=""):
             elif blocked and not ro and res != "E:LockContention":
                 viol(dict(case, step=i), "%s: %s needs the physical read lock of %s, which refuses, "
                               "but gives %s" % (kind, op, blocked[0] or kind, res))
+            elif subj.ds_blocked(tgt, o, bal, rb) and not ro and res != "E:LockContention":
+                viol(dict(case, step=i), "%s: %s needs the write lock of the dirstate file, which another tree "
+                     "object has read-locked, but gives %s" % (kind, op, res))
             elif o == "r" and not blocked and not ok:
                 viol(dict(case, step=i), "%s: lock_read (%s) refused: %s" % (kind, op, res))
         bal_before = dict(bal)
@@ -942,22 +1020,29 @@ def tree_stack(ctx, n_seq, maxlen):
     """real working tree / branch / repository with real LockDirs; oracle only"""
     from breezy.workingtree import WorkingTree
     rng = ctx.rng
-    base = env.make_tree("2a")
-    base.commit("one")
-    path = base.basedir
-    ops_all = ["tr", "tw", "tt", "tu", "br", "bw", "bu", "pr", "pw", "pu"]
-
+    # dp / du: a SECOND working-tree object on the same tree takes / gives back a read lock, which
+    # pins the dirstate file (its lock_write is then refused: a first tw / tt of the tree under test
+    # must fail with LockContention and leave no trace, on disk either)
+    ops_all = ["tr", "tw", "tt", "tu", "br", "bw", "bu", "pr", "pw", "pu", "dp", "du"]
     state = _tree_state
-
-    ctx.extra["tree_unlock_variant"] = tree_variant(path)
-    seqs = []
-    for n in range(1, 4):
-        seqs += [list(s) for s in itertools.product(ops_all, repeat=n)] if n <= ctx.pick(2, 3) else []
-    for _ in range(n_seq):
-        seqs.append([rng.choice(ops_all) for _ in range(rng.randint(3, maxlen))])
-    for ops in seqs:
-        tree_sequence(ctx, path, ops, state)
+    path = None
+    for fmt in TREE_FORMATS:
+        base = env.make_tree(fmt)
+        base.commit("one")
+        path = base.basedir
+        if fmt == "2a":
+            ctx.extra["tree_unlock_variant"] = tree_variant(path)
+        seqs = [["dp", w, "du", w, "tu"] for w in ("tw", "tt")] + [["br", "dp", "tt", "tw", "tr", "tu", "bu"]]
+        for n in range(1, 4):
+            seqs += [list(s) for s in itertools.product(ops_all, repeat=n)] if n <= ctx.pick(2, 3) else []
+        for _ in range(n_seq // len(TREE_FORMATS)):
+            seqs.append([rng.choice(ops_all) for _ in range(rng.randint(3, maxlen))])
+        for ops in seqs:
+            tree_sequence(ctx, path, ops, state, fmt=fmt)
     return path
+
+
+TREE_FORMATS = ("2a", "pack-0.92", "1.9")
 
 
 def _tree_state(wt):
@@ -965,20 +1050,42 @@ def _tree_state(wt):
     return (wt.is_locked(), wt._control_files._lock_count, wt._control_files._lock_mode,
             b.is_locked(), b.control_files._lock_count, b.control_files._lock_mode,
             bool(r.is_locked()), r._write_lock_count, r.control_files._lock_count,
-            b.get_physical_lock_status())
+            b.get_physical_lock_status(), wt._control_files.get_physical_lock_status(), dump_ds(wt))
 
 
-def tree_sequence(ctx, path, ops, state=_tree_state):
+def tree_sequence(ctx, path, ops, state=_tree_state, fmt="2a"):
     from breezy.workingtree import WorkingTree
     if True:
         wt = WorkingTree.open(path)
+        wt2 = WorkingTree.open(path)       # the other tree object (dp / du)
+        pinned = False
         objs = {"t": wt, "b": wt.branch, "p": wt.branch.repository}
         bal = {"t": 0, "b": 0, "p": 0}
         case = dict(kind="tree", ops=ops)
+        if fmt != "2a":
+            case["fmt"] = fmt
         nontrivial = False
         for i, op in enumerate(ops):
             tgt, o = op[0], op[1:]
             before = state(wt)
+            if tgt == "d":
+                # environment: the other object read-locks / unlocks; never judged itself, but it
+                # must not change the lock state of the tree under test
+                try:
+                    if o == "p" and not pinned:
+                        wt2.lock_read()
+                        pinned = True
+                    elif o == "u" and pinned:
+                        wt2.unlock()
+                        pinned = False
+                except Exception as e:  # noqa -- e.g. the tree under test holds the dirstate write lock
+                    ctx.count("tree:pin-refused=" + _exc(e))
+                if state(wt) != before:
+                    report(ctx, dict(case, step=i), "tree stack: a lock call on ANOTHER tree object changed the lock "
+                           "state of this one: %r -> %r" % (before, state(wt)))
+                    break
+                continue
+            first_write = o in ("w", "t") and tgt == "t" and bal["t"] == 0
             # other holders of the object this target locks underneath itself
             below = bal["b"] if tgt == "t" else bal["p"] if tgt == "b" else 0
             try:
@@ -995,6 +1102,12 @@ def tree_sequence(ctx, path, ops, state=_tree_state):
                 res = _exc(e)
             after = state(wt)
             ctx.count("tree:res=" + res)
+            if pinned and first_write and res == "ok":
+                report(ctx, dict(case, step=i), "tree stack: %s granted although another tree object holds a read "
+                       "lock on the dirstate file" % op)
+                break
+            if pinned and first_write:
+                ctx.count("tree:first-write-while-pinned=" + res)
             if res != "ok":
                 nontrivial = True
                 if after != before:
@@ -1024,7 +1137,21 @@ def tree_sequence(ctx, path, ops, state=_tree_state):
             if after[9] != phys_exp:
                 report(ctx, dict(case, step=i), "tree stack: branch physical lock status %s but write-locked=%s"
                               % (after[9], phys_exp))
+            tphys_exp = after[0] and after[2] == "w"
+            if after[10] != tphys_exp:
+                report(ctx, dict(case, step=i), "tree stack: the tree's physical lock (.bzr/checkout/lock) is %s on "
+                       "disk but the tree is write-locked=%s" % ("held" if after[10] else "absent", tphys_exp))
+                break
+            if (after[11] != "-") != after[0]:
+                report(ctx, dict(case, step=i), "tree stack: dirstate file lock %r but tree is_locked()=%s"
+                       % (after[11], after[0]))
+                break
         # release everything that is still held
+        try:
+            if pinned:
+                wt2.unlock()
+        except Exception:  # noqa
+            pass
         for t in ("t", "b", "p"):
             n = 0
             try:
@@ -1068,6 +1195,10 @@ FIXED = [
     dict(kind="ftree", ext=False, rb="t", ops=["tr", "br", "tr", "tt", "tr", "tu", "tu", "bu"]),
     dict(kind="ftree", ext=False, rb="c", ops=["tr", "tt", "pr", "tr", "tw", "tr", "tu", "tu", "pu"]),
     dict(kind="ftree", ext=False, rb="p", ops=["tr", "tt", "tw", "tr", "tu", "tu"]),
+    # the dirstate file pinned by another reader: first write locks are refused and rolled back
+    dict(kind="ftree", ext=False, rb="d", ops=["tw", "tt", "tr", "tw", "tr", "tu", "tt", "tu", "tw"]),
+    dict(kind="ftree", ext=False, rb="d", ops=["br", "tt", "bw", "tw", "bu", "pw", "tw", "tt", "pu"]),
+    dict(kind="ftree", ext=False, rb="dc", ops=["tw", "tr", "bw", "tt", "bu"]),
 ]
 
 
@@ -1195,9 +1326,9 @@ def replay(ctx, case):
             ctx.violation(case, "standard locking workflow fails: " + out)
         return dict(case=case, impl=out, model=None, oracle_failures=[v["what"] for v in ctx.violations])
     if kind == "tree":
-        base = env.make_tree("2a")
+        base = env.make_tree(case.get("fmt", "2a"))
         base.commit("one")
-        tree_sequence(ctx, base.basedir, case["ops"])
+        tree_sequence(ctx, base.basedir, case["ops"], fmt=case.get("fmt", "2a"))
         return dict(case=case, note="working-tree stack case (real LockDirs): oracle only", impl=None, model=None,
                     oracle_failures=[v["what"] for v in ctx.violations])
     subs = _subjects()
